@@ -304,7 +304,9 @@ func (w *World) verifyFunc(fi *FuncInfo, fc *FuncContract) (ex *Exec, err error)
 		gs, gt := w.resolveSpecType(shortPkg(fi.Pkg.PkgPath), g.Type)
 		st.ghost[g.Name] = tv(ex.fresh("gh_"+g.Name, gs), gt)
 	}
-	ex.assume(st, tNot(ex.isAlloc(st, intLit(0)))) // nil is never an allocated object
+	if ex.allocates {
+		ex.assume(st, tNot(ex.isAlloc(st, intLit(0)))) // nil is never an allocated object
+	}
 	ex.entry = st.clone()
 	for _, r := range fc.Requires {
 		ex.assume(st, ex.specBool(st, r.E, nil))
